@@ -196,6 +196,11 @@ def _blob(rng, big_ok: bool):
 
 def gen_model(rng, whole_seconds: bool, big_ok: bool = True) -> dict:
     n = rng.choice((1, 1, 2, 2, 3, 4, 5, 6))
+    many = rng.random() < 0.03
+    if many:
+        # a high-throughput producer: hundreds of tiny records in one batch
+        n = rng.choice((255, 256, 257, 258, 300, 1000))
+        big_ok = False
     base_off = rng.choice((0, 1, rng.randrange(0, 2**40), 2**63 - 1 - 2**31, rng.randrange(0, 2**62)))
     max_s = MAX_TS_MS // 1000
     if whole_seconds:
@@ -229,6 +234,10 @@ def gen_model(rng, whole_seconds: bool, big_ok: bool = True) -> dict:
             max_ts = min(MAX_TS_MS, max_ts + rng.choice((0, 1, 999, 3600_000)))
     recs = []
     for i in range(n):
+        if many:
+            recs.append({"attr": 0, "ts": tss[i], "off": offs[i], "key": None if i % 3 else "6b", "val": rng.randbytes(rng.randint(0, 3)).hex(),
+                         "hdrs": []})
+            continue
         hdrs = [[_blob(rng, False) or rng.randbytes(rng.randint(0, 9)).hex(), _blob(rng, False)] for _ in range(rng.choice((0, 0, 1, 2, 4)))]
         recs.append({"attr": rng.randint(-128, 127), "ts": tss[i], "off": offs[i], "key": _blob(rng, False),
                      "val": _blob(rng, big_ok), "hdrs": hdrs})
